@@ -60,6 +60,104 @@ def edge_hamiltonian(rng, parents, ids, dims, order, orient, fields):
     return util.Hamiltonian([(Fraction(1), "1", tp) for tp in tps], conv, {"1": 1})
 
 
+def wide_root_parents(rng, n, rootdeg):
+    """random tree with n nodes whose root has at least `rootdeg` children (the other nodes hang anywhere)."""
+    rootdeg = max(1, min(rootdeg, n - 1))
+    return [None] + [0] * rootdeg + [rng.randrange(0, i) for i in range(rootdeg + 1, n)]
+
+
+def observable_hamiltonian(rng, parents, ids, dims):
+    """A many-term observable (to be given to the driver in TTNO form): one two-site term on every edge at the
+    root, a few random terms of support 1..3 anywhere, site operators NOT Hermitian, a complex coefficient per term
+    (so that no node tensor of the TTNO is symmetric under an exchange of two of its legs)."""
+    nprs = np.random.RandomState(rng.randrange(2 ** 31))
+    conv = util.rand_conv(nprs, dims.values(), 4, False)
+    n = len(parents)
+    supports = [[0, c] for c in range(1, n) if parents[c] == 0]
+    for _ in range(rng.randrange(1, 4)):
+        supports.append(rng.sample(range(n), rng.randrange(1, min(3, n) + 1)))
+    rng.shuffle(supports)
+    terms, cm, seen = [], {"1": 1}, set()
+    for t, sup in enumerate(supports):
+        tp = {f"n{i}": f"A{rng.randrange(4)}_{dims[f'n{i}']}" for i in sup}
+        key = tuple(sorted(tp.items()))
+        if key in seen:
+            continue
+        seen.add(key)
+        cm[f"g{t}"] = complex(round(rng.uniform(-2, 2), 3), round(rng.uniform(-2, 2), 3)) or 1.0
+        terms.append((Fraction(rng.choice([1, 2, -1, 3]), rng.choice([1, 2])), f"g{t}", TensorProduct(tp)))
+    return util.Hamiltonian(terms, conv, cm)
+
+
+def ref_expm(m):
+    """exp(m) of a small complex matrix in extended precision (numpy longdouble): scaling and squaring around a
+    Taylor series.  Independent of scipy's Pade routine and of any eigendecomposition."""
+    m = np.asarray(m, dtype=np.clongdouble)
+    d = m.shape[0]
+    nrm = float(np.max(np.sum(np.abs(m), axis=1))) if d else 0.0
+    s = 0 if nrm < 0.25 else int(math.ceil(math.log2(nrm / 0.25)))
+    a = m / np.longdouble(2) ** s
+    term = np.eye(d, dtype=np.clongdouble)
+    out = term.copy()
+    for j in range(1, 26):
+        term = term @ a / np.longdouble(j)
+        out = out + term
+    for _ in range(s):
+        out = out @ out
+    return out
+
+
+def exactgen_input(case):
+    """the (Hamiltonian / generator, dt, T, state, named operators) of an 'exactgen' case, from its content only.
+    The generator is  scale * G0  and the step  tau / scale:  the represented evolution exp(-i G0 tau j) does not
+    depend on `scale`."""
+    nprs = np.random.RandomState(case["seed"])
+    d = case["dim"]
+
+    def crand(*shape):
+        return nprs.standard_normal(shape) + 1j * nprs.standard_normal(shape)
+    h0 = crand(d, d)
+    h0 = (h0 + h0.conj().T) / 2
+    gen = case["gen"]
+    if gen == "realsym":
+        g0 = np.real(h0)
+    elif gen == "herm":
+        g0 = h0
+    elif gen == "decay":
+        # effective non-Hermitian Hamiltonian: H0 - i eps L^dagger L (a loss channel of relative strength eps)
+        low = crand(d, d) * (nprs.random_sample((d, d)) < 0.6)
+        low[nprs.randint(d), nprs.randint(d)] = 1.0
+        g0 = h0 - 1j * (10.0 ** case["eps10"]) * (low.conj().T @ low)
+    else:
+        g0 = crand(d, d) / max(1.0, math.sqrt(d))
+    scale = 10.0 ** case["scale10"]
+    ham = scale * g0
+    if gen == "realsym":
+        ham = np.ascontiguousarray(np.real(ham))
+    dt = case["tau"] / scale
+    lay = case["layout"]
+    if lay == "F":
+        ham = np.asfortranarray(ham)
+    elif lay == "view":
+        big = np.zeros((2 * d, 2 * d), dtype=ham.dtype)
+        big[::2, ::2] = ham
+        ham = big[::2, ::2]
+    psi = crand(d) if case["psi"] == "complex" else nprs.standard_normal(d)
+    psi = psi / np.linalg.norm(psi) * 10.0 ** case["psi10"]
+    if case["open"]:
+        od = int(round(math.sqrt(d)))
+    else:
+        od = d
+    named = {}
+    for j in range(case["nops"]):
+        o = crand(od, od)
+        if j == 1:
+            o = np.eye(od, dtype=complex)
+        named[KEYS[j]] = o
+    T = (case["nsteps"] + case["frac"]) * dt
+    return ham, dt, T, psi, named
+
+
 def state_fingerprint(state):
     """content + identity fingerprint of a caller-owned state object."""
     if isinstance(state, np.ndarray):
@@ -82,18 +180,29 @@ class C18(Prop):
             "on a small system, run/reset/run; 'sites' class cases: every concrete class on a random 3..5 node tree, a two-site "
             "term on every edge (+ fields), a single-site observable on every node + one two-site observable, caller state "
             "not canonical or canonical at any node, for TEBD every (gate order, gate orientation) pair; every class case also "
-            "with the history 'operators asked after every hand-made step'. non-trivial = at least one step performed; "
-            "distinct by case content")
+            "with the history 'operators asked after every hand-made step'; 'ttnoobs' class cases: every TTN class on a random "
+            "4..6 node tree whose root has 2..4 children, observables given in TTNO form (many-term sums with complex "
+            "coefficients, built from the caller's tree or from an equal tree whose children were attached in another order) "
+            "next to 1..3-site tensor products in one container, judged against the dense sum of Kronecker products; "
+            "'exactgen' cases: the exact evolution on Hermitian / real symmetric / weakly..strongly non-Hermitian (loss of "
+            "relative strength 1e-10..1) / generic generators (also `open` mode), the generator in units 1e-12..1e6 with the "
+            "step scaled inversely, short and long total times (|H| T up to ~1e6), state norms 1e-6..1e6, dimension 1..9, "
+            "C / Fortran / strided generator arrays, non-integer T/dt, run/reset/run, judged against an extended-precision "
+            "Taylor exponential at the total time with a tolerance relative to |O||psi_j|^2. "
+            "non-trivial = at least one step performed; distinct by case content")
     clauses = [
         ("F", "num_steps: floor/ceil rule with the exact double 0.1, non-negative, unique window characterisation (C18_num_steps_*)"),
         ("F", "run: for interval k>=1 exactly the n/k+1 allocated columns are written, column j after j*k steps with time index j*k; "
               "'inf': one column after n steps; never an out-of-range write; n steps in total (C18_run_every, C18_run_inf)"),
         ("F", "a key addresses the row at its insertion position (C18_result_keys)"),
-        ("O", "exact evolution: state at column j is U^(jk) psi, U = expm(-iH dt) (validated numerically against scipy expm of -iH*j*dt)"),
+        ("O", "exact evolution: state at column j is U^(jk) psi, U = expm(-iH dt) (validated numerically against scipy expm of -iH*j*dt; "
+              "for any square generator, any units / step size / state norm, also against an independent extended-precision exponential "
+              "of -iH*(j*dt) with a tolerance of 1e-9 + 1e-13 |H| j dt relative to the scale of the reference value)"),
         ("V", "caller-state aliasing, reset and re-run reproducibility on every concrete class: runtime monitor (content+id fingerprints)"),
         ("V", "every concrete class: the recorded value of every operator (single-site on every node, two-site on an edge) in column j "
               "equals the dense <psi|O|psi> of the state of an independent instance stepped j*k times by hand; the same when the "
-              "operators are asked after every hand-made step, and asking does not disturb the evolution (validated, not a theorem)"),
+              "operators are asked after every hand-made step, and asking does not disturb the evolution; the same for observables "
+              "given in TTNO form on trees with a wide root (validated, not a theorem)"),
     ]
     trusted_base = ["float quotient final_time/time_step_size enters the model as its exact rational value; threshold is the exact value of the double 0.1",
                     "times are compared as the single float product (j*k)*dt computed the same way in the harness"]
@@ -152,7 +261,58 @@ class C18(Prop):
                                   "gauge": rng.choice(["none"] + ["node"] * 7), "centre": rng.randrange(nn),
                                   "order": order, "orient": orient,
                                   "fields": rng.choice(["after", "before", "mixed", "no"])})
+        # "ttnoobs" family: observables given in TTNO form (many-term sums, next to tensor products in the same
+        # container) on trees whose root has 2..4 children; the TTNO is built from the caller's tree or from an equal
+        # tree whose children were attached in another order (same identifiers, same edges).
+        for rep in range(nrep):
+            for kind in util.EVOLUTION_KINDS:
+                for deg in [3, rng.choice([2, 2, 3, 4])]:
+                    nn = rng.choice([deg + 1, deg + 1, deg + 2]) if kind != "tebd" else rng.choice([deg + 1, deg + 2, deg + 3])
+                    nn = min(nn, 6)
+                    cases.append({"kind": "class", "family": "ttnoobs", "cls": kind, "tree": wide_root_parents(rng, nn, deg),
+                                  "nsteps": rng.choice([2, 3, 4]), "k": rng.choice([1, 2, "inf"]),
+                                  "cont": rng.choice(["list", "dict", "dict", "single"]),
+                                  "seed": rng.randrange(10 ** 6), "deep": rng.random() < 0.5,
+                                  "gauge": rng.choice(["none", "node"]), "centre": rng.randrange(nn),
+                                  "order": rng.choice(GATE_ORDERS), "orient": rng.choice(GATE_ORIENTS),
+                                  "fields": rng.choice(["after", "before", "mixed", "no"]),
+                                  "nttno": rng.choice([1, 1, 2]), "ttno_first": rng.random() < 0.5,
+                                  "obs_tree": rng.choice(["caller", "caller", "reattached"])})
+        # "exactgen" family: the exact reference evolution on its whole input space: Hermitian (complex / real
+        # symmetric), weakly to strongly non-Hermitian (effective Hamiltonian with a loss channel of relative strength
+        # 1e-10 .. 1) and generic generators (also in the documented `open` mode on a vectorised density matrix);
+        # the generator given in units spread over 18 orders of magnitude with the step scaled inversely (the
+        # represented evolution is unchanged), short and long total times, states of tiny / huge norm, dimension 1,
+        # memory layouts of the generator.
+        for rep in range(ctx.scale(150, 1500) * budget_scale):
+            cases.append(self._gen_exactgen(rng))
         return cases
+
+    @staticmethod
+    def _gen_exactgen(rng):
+        gen = rng.choice(["herm", "realsym", "decay", "decay", "decay", "generic", "generic"])
+        open_ = gen == "generic" and rng.random() < 0.35
+        d = rng.choice([1, 4, 9]) if open_ else rng.choice([1, 2, 2, 3, 4, 4, 6])
+        nsteps = rng.randrange(1, 9)
+        eps10 = round(rng.uniform(-10, 0), 2) if gen == "decay" else 0.0
+        scale10 = rng.choice([0.0, round(rng.uniform(-12, 6), 1), round(rng.uniform(-12, 6), 1)])
+        regime = rng.choice(["short", "long"])
+        if gen == "generic":
+            total = rng.uniform(0.1, 4)
+        elif regime == "short":
+            total = 10 ** rng.uniform(-2, 1)
+        elif gen == "decay":
+            total = min(rng.uniform(0.1, 3) / 10 ** eps10, 3e5)
+        else:
+            total = 10 ** rng.uniform(1, 5.5)
+        cont = rng.choice(["single", "list", "dict"])
+        return {"kind": "exactgen", "gen": gen, "open": open_, "dim": d, "nsteps": nsteps,
+                "frac": rng.choice([0.0, 0.0, 0.04, -0.5, 0.3]), "k": rng.choice([1, 1, 2, 3, "inf"]),
+                "cont": cont, "nops": 1 if cont == "single" else rng.randrange(1, 5),
+                "eps10": eps10, "scale10": scale10, "regime": regime, "tau": float(f"{total / nsteps:.4g}"),
+                "psi": rng.choice(["complex", "complex", "real"]),
+                "psi10": rng.choice([0.0, 0.0, round(rng.uniform(-6, 6), 1)]),
+                "layout": rng.choice(["C", "C", "F", "view"]), "seed": rng.randrange(10 ** 6)}
 
     def nontrivial(self, case):
         if case["kind"] == "grid":
@@ -164,6 +324,18 @@ class C18(Prop):
         c = Counter()
         for x in cases:
             c[x["kind"] + ":" + str(x.get("cls", x.get("cont")))] += 1
+            if x["kind"] == "exactgen":
+                c["exactgen:" + x["gen"] + (":open" if x["open"] else "")] += 1
+                c["exactgen:dim:" + str(x["dim"])] += 1
+                c["exactgen:regime:" + x["regime"]] += 1
+                s10 = x["scale10"]
+                c["exactgen:units:" + ("1" if s10 == 0 else "<1e-8" if s10 < -8 else "<1" if s10 < 0 else ">1")] += 1
+                if x["gen"] == "decay":
+                    c["exactgen:loss:" + ("<1e-5" if x["eps10"] < -5 else ">=1e-5")] += 1
+            if x.get("family") == "ttnoobs":
+                c["ttnoobs:" + x["cls"]] += 1
+                c["ttnoobs:rootdeg:" + str(sum(1 for q in x["tree"] if q == 0))] += 1
+                c["ttnoobs:obs_tree:" + x["obs_tree"]] += 1
             if x.get("family") == "sites":
                 c["sites:" + x["cls"]] += 1
                 c["sites:gauge:" + x["gauge"]] += 1
@@ -224,7 +396,8 @@ class C18(Prop):
         ttns = util.build_ttns(rng, par, phys=[2] * n, bond=2)
         ids = sorted(ttns.nodes)
         dims = util.phys_dims(ttns)
-        sites = case.get("family") == "sites"
+        ttnoobs = case.get("family") == "ttnoobs"
+        sites = case.get("family") == "sites" or ttnoobs
         if sites:
             ham = edge_hamiltonian(rng, par, ids, dims, case["order"], case["orient"], case["fields"])
         else:
@@ -251,7 +424,30 @@ class C18(Prop):
             ttns.canonical_form(centre, mode=rng.choice([util.ptn.SplitMode.REDUCED, util.ptn.SplitMode.KEEP]))
         nprs = np.random.RandomState(case["seed"])
         opm = {}    # key -> {node id: matrix}
-        if sites:
+        obs_hams = {}   # key -> many-term observable handed over in TTNO form
+        if ttnoobs:
+            # one or two observables in TTNO form, a single-site observable on the root and on one of its children,
+            # a two-site and (if possible) a three-site tensor product, in a random order
+            named = [("site_root", ["n0"]), ("site_child", [f"n{rng.choice([c for c in range(1, n) if par[c] == 0])}"]),
+                     ("pair", [f"n{i}" for i in rng.sample(range(n), 2)])]
+            if n >= 3:
+                named.append(("triple", [f"n{i}" for i in rng.sample(range(n), 3)]))
+            rng.shuffle(named)
+            named = named[:rng.randrange(1, len(named) + 1)]
+            for j in range(case["nttno"]):
+                named.insert(0 if (case["ttno_first"] and j == 0) else rng.randrange(len(named) + 1), (f"ttno_{j}", None))
+            if case["obs_tree"] == "reattached":
+                # an equal tree (same identifiers, same edges) whose children were attached in another order
+                obs_tree = util.build_ttns(random.Random(case["seed"] + 1), par, phys=[2] * n, bond=1)
+            else:
+                obs_tree = ttns
+            for key, where in named:
+                if where is None:
+                    obs_hams[key] = observable_hamiltonian(rng, par, ids, dims)
+                else:
+                    opm[key] = {i: nprs.standard_normal((2, 2)) + 1j * nprs.standard_normal((2, 2)) for i in where}
+            order_of_keys = [key for key, _ in named]
+        elif sites:
             # a single-site observable on every node and a two-site observable on one edge, in a random order
             named = [(f"site_{i}", [i]) for i in ids]
             c = rng.randrange(1, n)
@@ -275,12 +471,21 @@ class C18(Prop):
         else:
             ttno = util.TTNO.from_hamiltonian(copy.deepcopy(ham), ttns)
             tps = {key: TensorProduct(dict(tp)) for key, tp in opm.items()}
+            if ttnoobs:
+                for key, oh in obs_hams.items():
+                    tps[key] = util.TTNO.from_hamiltonian(copy.deepcopy(oh), obs_tree)
+                tps = {key: tps[key] for key in order_of_keys}
             ops = self._container(case["cont"], tps)
             caller = ttns
             fp0 = state_fingerprint(caller)[:3]
             bk = {"deep": case["deep"]} if case["cls"] in ("bug", "fbug") else None
             ev = util.make_evolution(case["cls"], caller, ham, ttno, dt, T, ops, bug_kwargs=bk)
             dense_ops = {key: util.dense_tp(tp, ids, dims) for key, tp in opm.items()}
+            if ttnoobs:
+                for key, oh in obs_hams.items():
+                    dense_ops[key] = util.dense_ham(oh, ids, dims)
+                dense_ops = {key: dense_ops[key] for key in order_of_keys}
+                opm = dense_ops     # (only its key order is used below)
         ob["n"] = ev.num_time_steps
         ev.run(evaluation_time=k, pgbar=False)
         res1 = np.array(ev.results)
@@ -348,6 +553,77 @@ class C18(Prop):
             ob["bykey_ok"] = all(np.array_equal(ev.operator_result(key), res2[r]) for r, key in enumerate(ops))
         return ob
 
+    def _exactgen_impl(self, case):
+        from pytreenet.time_evolution.exact_time_evolution import ExactTimeEvolution, ExactTimeEvolutionConfig
+        ham, dt, T, psi, named = exactgen_input(case)
+        cont = case["cont"]
+        ops = self._container(cont, named)
+        keys = list(named) if cont != "single" else [list(named)[0]]
+        caller = psi.copy()
+        ham0 = np.array(ham)
+        ops0 = {key: o.copy() for key, o in named.items()}
+        if case["open"]:
+            ev = ExactTimeEvolution(caller, ham, dt, T, ops, ExactTimeEvolutionConfig(open=True))
+        else:
+            ev = ExactTimeEvolution(caller, ham, dt, T, ops)
+        k = case["k"]
+        ob = {"n": ev.num_time_steps, "k": k, "dt": dt, "T": T}
+        ev.run(evaluation_time=k, pgbar=False)
+        res1 = np.array(ev.results)
+        final = np.array(ev.state)
+        ob["inputs_unchanged"] = bool(np.array_equal(caller, psi) and np.array_equal(ham, ham0)
+                                      and all(np.array_equal(named[key], ops0[key]) for key in named))
+        ob["state_is_caller"] = ev.state is caller
+        ev.reset_to_initial_state()
+        ob["reset_equals_initial"] = bool(np.array_equal(ev.state, psi))
+        ev.run(evaluation_time=k, pgbar=False)
+        res2 = np.array(ev.results)
+        ob["inputs_unchanged_rerun"] = bool(np.array_equal(caller, psi) and np.array_equal(ham, ham0))
+        big = float(np.max(np.abs(res1[:-1]))) if res1.size else 0.0
+        ob["rerun_reldiff"] = (float(np.max(np.abs(res1 - res2))) / big) if (big > 0 and res1.shape == res2.shape) else (0.0 if res1.shape == res2.shape else 1.0)
+        ob["shape"] = list(res1.shape)
+        ob["times"] = np.real(res1[-1]).tolist()
+        ob["times_api"] = np.real(ev.times()).tolist()
+        # reference: exp(-i H (j dt)) psi in extended precision at the TOTAL time j*dt, for the number of steps the
+        # property's rule gives
+        q = T / dt
+        fl = math.floor(q)
+        n = fl if (q - fl) < 0.1 else fl + 1
+        steps = [n] if k == "inf" else list(range(0, n + 1, k))
+        ob["n_rule"] = n
+        ob["steps_at"] = steps
+        hl = ham0.astype(np.clongdouble)
+        od = int(round(math.sqrt(case["dim"])))
+        worst = None     # [relative error, column, key, recorded, reference]
+        refs = {}
+        for col, st in enumerate(steps):
+            ref = ref_expm(np.clongdouble(-1j) * hl * (np.longdouble(st) * np.longdouble(dt))) @ psi.astype(np.clongdouble)
+            refs[st] = ref
+            nr = float(np.sqrt(np.sum(np.abs(ref) ** 2)))
+            for r, key in enumerate(keys):
+                o = ops0[key].astype(np.clongdouble)
+                if case["open"]:
+                    want = complex(np.trace(o @ ref.reshape(od, od)))
+                    sc = float(np.linalg.norm(ops0[key])) * nr
+                else:
+                    want = complex(np.conj(ref) @ (o @ ref))
+                    sc = float(np.linalg.norm(ops0[key], 2)) * nr ** 2
+                if r < res1.shape[0] - 1 and col < res1.shape[1]:
+                    got = complex(res1[r, col])
+                    err = abs(got - want) / sc if sc > 0 else abs(got - want)
+                    if worst is None or err > worst[0]:
+                        worst = [float(err), col, key, got, want]
+        ob["worst"] = worst
+        if n not in refs:
+            refs[n] = ref_expm(np.clongdouble(-1j) * hl * (np.longdouble(n) * np.longdouble(dt))) @ psi.astype(np.clongdouble)
+        ref = refs[n]
+        nr = float(np.sqrt(np.sum(np.abs(ref) ** 2)))
+        ob["final_state_relerr"] = (float(np.max(np.abs(final - ref))) / nr) if final.shape == ref.shape else 1.0
+        ob["ham_norm_total"] = float(np.linalg.norm(ham0, 2)) * abs(n * dt)
+        if cont == "dict":
+            ob["bykey_ok"] = all(np.array_equal(ev.operator_result(key), res2[r]) for r, key in enumerate(ops))
+        return ob
+
     @staticmethod
     def _container(cont, named):
         if cont == "single":
@@ -360,7 +636,8 @@ class C18(Prop):
         out = []
         for c in cases:
             try:
-                out.append(self._grid_impl(c) if c["kind"] == "grid" else self._class_impl(c))
+                out.append(self._grid_impl(c) if c["kind"] == "grid" else
+                           self._exactgen_impl(c) if c["kind"] == "exactgen" else self._class_impl(c))
             except Exception as e:  # noqa
                 import traceback
                 out.append({"exception": f"{type(e).__name__}: {e}", "tb": traceback.format_exc()[-1500:]})
@@ -446,6 +723,8 @@ class C18(Prop):
             if not ob["rerun_equal"]:
                 return "second run after reset differs from the first"
             return None
+        if case["kind"] == "exactgen":
+            return self._exactgen_oracle(case, ob)
         # class cases
         if ob["n"] != ob["nsteps"]:
             return f"num steps {ob['n']} != {ob['nsteps']}"
@@ -483,6 +762,43 @@ class C18(Prop):
             return f"exact evolution deviates from expm(-iH j dt) psi by {ob['exact_dev']}"
         if case["cont"] == "dict" and not ob.get("bykey_ok", True):
             return "dict keys do not address their rows"
+        return None
+
+    # relative tolerance of the exact-evolution family: the scale of a value is |O| |psi_j|^2 of the REFERENCE state
+    # (|O| |rho_j| in the open mode); the allowance grows with |H| j dt because a double-precision propagator of a
+    # generator of that size cannot be more accurate than about 1e-16 |H| j dt
+    EXACT_RTOL = 1e-9
+    EXACT_RTOL_PER_NORM = 1e-13
+
+    def _exactgen_oracle(self, case, ob):
+        what = f"exact evolution ({case['gen']}{', open' if case['open'] else ''}, dim {case['dim']}, H in units of 1e{case['scale10']:g}, dt={ob['dt']:.6g})"
+        if ob["n"] != ob["n_rule"]:
+            return f"{what}: number of steps {ob['n']} != {ob['n_rule']} for T/dt={ob['T'] / ob['dt']!r}"
+        if not ob["inputs_unchanged"] or not ob["inputs_unchanged_rerun"]:
+            return f"{what}: the caller's state vector / Hamiltonian / operators were modified by run()"
+        if ob["state_is_caller"]:
+            return f"{what}: evolves the caller's array in place"
+        if not ob["reset_equals_initial"]:
+            return f"{what}: reset does not restore the initial state"
+        steps = ob["steps_at"]
+        nops = 1 if case["cont"] == "single" else case["nops"]
+        if ob["shape"] != [nops + 1, len(steps)]:
+            return f"{what}: result shape {ob['shape']} expected {[nops + 1, len(steps)]}"
+        want_t = [s * ob["dt"] for s in steps]
+        if not np.allclose(ob["times"], want_t, rtol=1e-12, atol=0.0) or ob["times_api"] != ob["times"]:
+            return f"{what}: times {ob['times']} expected {want_t}"
+        tol = self.EXACT_RTOL + self.EXACT_RTOL_PER_NORM * ob["ham_norm_total"]
+        if ob["worst"] is not None and not ob["worst"][0] <= tol:
+            err, col, key, got, want = ob["worst"]
+            return (f"{what}: '{key}' recorded in column {col} (after {steps[col]} steps, t={ob['times'][col]:.6g}) is {got:.9g}, "
+                    f"the value on exp(-iH j dt) psi is {want:.9g} (error {err:.3g} of the scale |O||psi_j|^2, allowed {tol:.3g})")
+        if not ob["final_state_relerr"] <= tol:
+            return (f"{what}: the state after {ob['n_rule']} steps deviates from exp(-iH j dt) psi by {ob['final_state_relerr']:.3g} "
+                    f"of its norm (allowed {tol:.3g})")
+        if ob["rerun_reldiff"] > 1e-12:
+            return f"{what}: run/reset/run differs by {ob['rerun_reldiff']:.3g} (relative)"
+        if case["cont"] == "dict" and not ob.get("bykey_ok", True):
+            return f"{what}: dict keys do not address their rows"
         return None
 
     def classify(self, case, what, known):
